@@ -49,6 +49,7 @@ func checkC19(r *Run) {
 	c19WStat(r)
 	c19Create(r)
 	c19FreshStat(r)
+	c19Listing(r)
 	c19HostEffects(r)
 }
 
@@ -925,4 +926,38 @@ func freshEntry(v ssa.Value, depth int) bool {
 		}
 	}
 	return true
+}
+
+// c19Listing: a directory listing describes the directory's own entries: every Dir put into it is built from
+// DirEntry.Info() of an entry os.ReadDir returned (lstat semantics: a symbolic link is listed as itself). Re-statting
+// the names with os.Stat follows links — a dangling link or a link loop then fails and silently drops out of the listing.
+func c19Listing(r *Run) {
+	p := r.P
+	od := p.Fn("ufs:(*FileRef).OpenDir")
+	if od == nil {
+		r.Undecided("listing", "(*FileRef).OpenDir", token.NoPos, "anchor not found")
+		return
+	}
+	n := 0
+	for _, fn := range p.withHelpers(od, 1) {
+		if fn != od && fn.Name() != "dirFromEntry" && !strings.Contains(strings.ToLower(fn.Name()), "list") && !strings.Contains(strings.ToLower(fn.Name()), "entr") {
+			continue // fullPath, IsDir, … : not part of building the listing
+		}
+		r.SawFn(fnName(fn))
+		for _, c := range findCalls(fn, "ufs.dirFromInfo") {
+			n++
+			ok := false
+			if ex, isEx := c.Call.Args[0].(*ssa.Extract); isEx && ex.Index == 0 {
+				if ic, isC := ex.Tuple.(*ssa.Call); isC && ic.Call.IsInvoke() && ic.Call.Method.Name() == "Info" && strings.HasSuffix(shortType(ic.Call.Value.Type()), "DirEntry") {
+					ok = true
+				}
+			}
+			r.Check(ok, "listing", fnName(fn)+": a listing entry is built from DirEntry.Info() of the directory's own entry", c.Pos(),
+				"the entry is described by a fresh stat of its name instead of the directory entry's own Info(): os.Stat follows symbolic links, so dangling links vanish from the listing and links are listed as their targets")
+		}
+		for _, c := range findCalls(fn, "os.Stat") {
+			r.Bad("listing", fnName(fn)+": the listing does not re-stat names (os.Stat follows links)", c.Pos(), "os.Stat is called while building a directory listing")
+		}
+	}
+	r.Floor("listing", n, 1, "dirFromInfo calls building the listing")
 }
